@@ -293,6 +293,15 @@ def parse_nat_list(out: str, marker: str = "=") -> list[int]:
     return [int(x) for x in re.findall(r"\d+", body)]
 
 
+def parse_nat_lists(out: str) -> list[list[int]]:
+    """All `= [..]` results printed by successive `Eval vm_compute in (failing ..)` commands, in order."""
+    res = []
+    for m in re.finditer(r"=\s*(\[[^\]]*\]|nil)\s*:\s*list nat", out):
+        body = m.group(1)
+        res.append([] if body == "nil" else [int(x) for x in re.findall(r"\d+", body)])
+    return res
+
+
 def digest(obj) -> str:
     return hashlib.sha256(json.dumps(obj, sort_keys=True, default=str).encode()).hexdigest()[:16]
 
@@ -410,6 +419,16 @@ class Check:
         with cf.ThreadPoolExecutor(max_workers=NPROC) as ex:
             futs = [ex.submit(self.coq_eval, t, tag, timeout) for tag, t in texts]
             return [f.result() for f in futs]
+
+    def coq_failing_multi(self, text: str, tag: str, n: int, timeout: int = 600) -> list[list[int]]:
+        """A case file with n successive `Eval vm_compute in (failing ..)` commands -> n index lists."""
+        rc, out = self.coq_eval(text, tag, timeout)
+        if rc != 0:
+            raise RuntimeError(f"case file {tag} did not compile:\n{out[-3000:]}")
+        res = parse_nat_lists(out)
+        if len(res) != n:
+            raise RuntimeError(f"case file {tag}: expected {n} result lists, got {len(res)}:\n{out[-2000:]}")
+        return res
 
     def coq_failing(self, text: str, tag: str, timeout: int = 600) -> list[int]:
         rc, out = self.coq_eval(text, tag, timeout)
